@@ -201,10 +201,11 @@ func (r *Reference) Set(t Tag, value string) error {
 	switch t {
 	case refNameTag:
 		if value == "*" {
-			r.name = ""
-			return nil
+			value = ""
 		}
-		r.name = value
+		// Renaming goes through SetName so that the owning
+		// header's name table follows.
+		return r.SetName(value)
 	case refLengthTag:
 		l, err := strconv.Atoi(value)
 		if err != nil {
